@@ -48,6 +48,9 @@ func gen18(seed int64, tier string) []drv.Case {
 		if i%25 == 24 {
 			p.Steps = 150 + r.Intn(150)
 		}
+		if i%150 == 149 {
+			p.Steps, p.Profile = 12000, "files" // a long-lived mount: many reads and writes on few files
+		}
 		cs = append(cs, drv.Case{ID: fmt.Sprintf("%s-%d", p.Profile, i), Class: p.Profile, Params: drv.MustJSON(p)})
 	}
 	return cs
@@ -829,5 +832,6 @@ func reverseHead(xs []string, n int) []string {
 }
 
 func TestC18(t *testing.T) {
+	fuseh.LimitOpenFiles(1024)
 	drv.Main(t, drv.Driver{ID: "C18", Gen: gen18, Run: run18, CaseTimeout: 5 * time.Minute})
 }
